@@ -42,7 +42,7 @@ Print Assumptions C23_emitted_covered.
    which covers the members placed in it in clear *)
 Theorem C23_every_stream_enciphered : forall strE stmE to_os d filters raw d' raw',
   write_iobj true strE stmE to_os (IStream d filters raw) = Ok (EmTopStream d' raw') ->
-  type_is nXRef d = false -> single_crypt filters = false -> stmE raw = Ok raw'.
+  type_is nXRef d = false -> skips_crypt filters = false -> stmE raw = Ok raw'.
 Proof. exact stream_data_enciphered. Qed.
 Print Assumptions C23_every_stream_enciphered.
 
